@@ -43,10 +43,27 @@ class DispatchingRequestHandler(BaseHTTPRequestHandler):
         path_elements = parsed_path.path.split('/')
         if len(path_elements[0]) > 0:
             return path_elements[0]
-        return path_elements[1]
+        if len(path_elements) > 1:
+            return path_elements[1]
+        return ''  # empty path: no component will be found for it
+
+    def _send_plain_error(self, status: int, http_reason: str):
+        """Answer with an error status and an empty body."""
+        self.close_connection = True  # pylint: disable=attribute-defined-outside-init
+        http_reason = http_reason.replace('\r', ' ').replace('\n', ' ')[:200]
+        self.send_response(status, http_reason)
+        self.send_header("Content-type", "text/plain; charset=utf-8")
+        self.send_header("Content-length", "0")
+        self.end_headers()
 
     def do_POST(self):  # pylint: disable=invalid-name
-        request_bytes = self._read_request()
+        try:
+            request_bytes = self._read_request()
+        except Exception as ex:  # noqa: BLE001
+            # malformed framing (content-length, chunks) or unsupported / corrupt content-encoding
+            self.server.logger.error('could not read request {} (request from {}): {!r}', self.path, self.client_address, ex)
+            self._send_plain_error(400, f'could not read request body: {ex!r}')
+            return
         if self.server.dispatcher is None:
             # close this connection
             self.close_connection = True  # pylint: disable=attribute-defined-outside-init
@@ -106,7 +123,12 @@ class DispatchingRequestHandler(BaseHTTPRequestHandler):
             self.send_response(404, response_xml_string)  # not found
             return
 
-        component = self.server.dispatcher.get_instance(self.get_first_path_element())
+        try:
+            component = self.server.dispatcher.get_instance(self.get_first_path_element())
+        except InvalidPathError as ex:
+            self.server.logger.error('invalid path {} (request from {}): {}', self.path, self.client_address, ex.reason)
+            self._send_plain_error(ex.status, ex.reason)
+            return
 
         peer_name = self.connection.getpeername()
         result = component.do_get(self.headers, self.path, peer_name)
